@@ -125,6 +125,10 @@ def case(arg):
                         pass
                     else:
                       stack1 = _stacks(kn, a) if stack0 is not None else None
+                      if kn.split(":")[-1] == "l2d" and X.sync_l2d_pending_order(kn, a, b):
+                          # (the marks set and removed by the first call changed the iteration order of the pending hash set:
+                          # recorded finding l2d_pending_set_order; the repetition starts from the canonical order again)
+                          l2d_order[0] += 1
                       r2 = a.ask(n, tell_pending=False)
                       extra += 1
                       if L.canon(r1) != L.canon(r2):
